@@ -67,11 +67,12 @@ class Invariance(SxContract):
             for i in range(n):
                 for k in range(K):
                     P[i, k] = sx.Sx(dag.const(1 if k == (i % K if self.what == "onehot" else (i // 2) % K) else 0))
-        elif self.what == "empty":
+        elif self.what in ("empty", "empty2"):
+            extra = 1 if self.what == "empty" else 2       # one / two empty clusters (two are identical: zero distance)
             P0 = simplex_reduced(ctx, n, K, eps=eps)
-            P = np.empty((n, K + 1), dtype=object)
+            P = np.empty((n, K + extra), dtype=object)
             P[:, :K] = P0
-            P[:, K] = sx.Sx(dag.ZERO)
+            P[:, K:] = sx.Sx(dag.ZERO)
         else:
             P = simplex_reduced(ctx, n, K, eps=eps)
         A = sx.sym_symmetric(ctx, "a", n, lo=-1.0, hi=2.0) if self.needA else None
@@ -125,10 +126,14 @@ class Invariance(SxContract):
         elif self.what == "indep":
             want = dag.const(Q(1, 2)) if self.cls == "ChiSquareGEMINI" else dag.ZERO
             yield "score at independence", prove.eq(s0, want)
-        elif self.what == "empty":
+        elif self.what in ("empty", "empty2"):
             yield "grad shape", prove.holds(getattr(g0, "shape", None) == P.shape)
-            for i in range(n):
-                yield f"empty cluster gradient [{i}] == 0", prove.eq(g0[i, K - 1], 0)
+            fin = not (sx.lift(s0) is sx.TOK or any(sx.lift(x) is sx.TOK for x in np.asarray(g0, dtype=object).flat))
+            yield "score and gradient finite (no non-finite value reaches them)", prove.holds(fin)
+            if fin:
+                for i in range(n):
+                    for k in range(self.K, K):
+                        yield f"empty cluster gradient [{i},{k}] == 0", prove.eq(g0[i, k], 0)
         elif self.what in ("onehot", "duplicates"):
             yield "grad shape", prove.holds(getattr(g0, "shape", None) == P.shape, f"{getattr(g0, 'shape', None)} vs {P.shape}")
             fin = not (sx.lift(s0) is sx.TOK or any(sx.lift(x) is sx.TOK for x in np.asarray(g0, dtype=object).flat))
